@@ -732,7 +732,7 @@ fn classify(verts: &[VRec], vi: usize, a: Point, b: Point, from: EndpointId, to:
 }
 
 /// Witness class `beyond-edge-end` of an edge-source parameter outside `[0,1]` (finding
-/// `C07-split-parameter-beyond-edge-end`): the input edge A→B is flatter than 45 degrees in sweep
+/// `C07-split-parameter-beyond-edge-end`, fixed by lyon 96af7b62: the class names regressions): the input edge A→B is flatter than 45 degrees in sweep
 /// space, so `split_edge` (`process_edges_above`) and `merge_coincident_edges` locate their split
 /// point along x (`solve_t_for_x`); some output vertex W is treated as lying on the edge although
 /// its sweep-x is BEYOND the edge's x-extent: W is within half the tolerance (+ rounding) of the
@@ -1649,7 +1649,7 @@ fn corpus(ctx: &mut Ctx) {
     }
 }
 
-/// Fixed witness of the open finding `collinear-curve`: a cubic whose control points lie on the
+/// Fixed witness of the finding `collinear-curve` (no longer observed since lyon 96af7b62: must pass): a cubic whose control points lie on the
 /// level line y = 2 and which retraces itself (x: 7 → 4.81 → 5.52 → 8).
 fn corpus_collinear(ctx: &mut Ctx) {
     ctx.case("fill", |_rng| {
@@ -1743,7 +1743,8 @@ fn plain_fill_case(ctx: &mut Ctx, make: impl FnOnce(&mut Rng) -> (Spec, Cfg)) {
     });
 }
 
-/// Fixed witnesses of the open finding `beyond-edge-end` (given in sweep space, mapped back for
+/// Fixed witnesses of the finding `beyond-edge-end` (open until lyon 96af7b62, now fixed: these cases must
+/// pass; the descriptions below say what lyon reported BEFORE the fix) (given in sweep space, mapped back for
 /// `Orientation::Horizontal`); run after everything else so that the ids of the generated cases stay
 /// what they were.
 ///  1. coincident merge: two triangles share the apex (0,0); the edges (0,0)→(100, 1/64) and
@@ -1781,8 +1782,8 @@ fn corpus_beyond_end(ctx: &mut Ctx) {
 }
 
 /// Targeted search around the two witnesses (randomised magnitudes, slopes, overshoots, tolerances,
-/// orientation, entry point): any violation that is NOT of the class `beyond-edge-end` - a position
-/// off by more than the envelope, another clause - is reported as a new violation.
+/// orientation, entry point). Before lyon 96af7b62 two thirds of these inputs violated the parameter-range
+/// clause (class `beyond-edge-end`); since the fix every one of them must pass.
 fn beyond_case(ctx: &mut Ctx) {
     plain_fill_case(ctx, |rng| {
         let orient = if rng.chance(1, 2) { Orientation::Vertical } else { Orientation::Horizontal };
